@@ -64,7 +64,7 @@ Truthy(v) ==
       [] v[1] = "none" -> FALSE
       [] v[1] = "t"  -> TRUE
       [] v[1] = "f"  -> FALSE
-      [] v[1] \in {"l", "tu"} -> v[2] # <<>>
+      [] v[1] \in {"l", "tu", "d"} -> v[2] # <<>>
       [] OTHER -> TRUE
 
 PyBool(b) == IF b THEN <<"t">> ELSE <<"f">>
@@ -97,6 +97,18 @@ PyEval(P, env) ==
       [] P[1] = "len" -> LET a == PyEval(P[2], env)
                          IN IF a = Bad \/ a[1] \notin {"s", "l", "tu"} THEN Bad ELSE <<"i", Len(a[2])>>
 
+(* dict(list of [key, value] pairs): a later pair with the same key replaces the value in place *)
+RECURSIVE DictPut(_, _, _, _)
+DictPut(items, i, k, v) ==
+    IF i > Len(items) THEN Append(items, <<k, v>>)
+    ELSE IF items[i][1] = k THEN [items EXCEPT ![i] = <<k, v>>]
+    ELSE DictPut(items, i + 1, k, v)
+RECURSIVE DictOf(_, _, _)
+DictOf(pairs, i, acc) ==
+    IF i > Len(pairs) THEN <<"d", acc>>
+    ELSE IF pairs[i][1] # "l" \/ Len(pairs[i][2]) # 2 THEN Bad
+    ELSE DictOf(pairs, i + 1, DictPut(acc, 1, pairs[i][2][1], pairs[i][2][2]))
+
 PyCall(f, a) ==
     IF f[1] # "fv" \/ a = Bad THEN Bad
     ELSE CASE f[2] = "int"   -> IF a[1] = "s" /\ IsDigits(a[2]) THEN <<"i", DigitsVal(a[2], Len(a[2]))>>
@@ -109,6 +121,7 @@ PyCall(f, a) ==
                                 THEN PyBool(Len(a[2]) > Len(f[3][2])) ELSE Bad
            [] f[2] = "const" -> f[3]
            [] f[2] = "pair"  -> <<"l", <<f[3], a>>>>
+           [] f[2] = "dict"  -> IF a[1] = "l" THEN DictOf(a[2], 1, <<>>) ELSE Bad
            [] f[2] = "wrap"  -> <<"l", <<a>>>>
            [] f[2] = "boomeq" -> IF a = f[3] THEN Bad ELSE <<"t">>      \* user code that raises on one value
            [] OTHER -> Bad
